@@ -424,7 +424,7 @@ func TestC20(t *testing.T) {
 		kit.Eval()
 		return
 	}
-	kit.SetRapid(kit.N(160, 8000))
+	kit.SetRapid(kit.N(160, 2400))
 	rapid.Check(t, kit.Prop("C20", func(t *rapid.T) {
 		cfg := c20Config{
 			Backend:   rapid.SampledFrom(kit.AllBackends).Draw(t, "backend").String(),
